@@ -934,6 +934,7 @@ func checkC13(c *Ctx) string {
 		c.Obl(r6, "ixkey.Min is the empty string", p.PosOf(p.ConstObj("db19/index/ixkey", "Min").Pos()), okm,
 			unless(okm, fmt.Sprintf("Min=%q: the empty string (packed empty value) is the smallest key and would fall outside a range starting at Min", constant.StringVal(mn))))
 	}
+	checkConcatBounded(c, "C13.7 K4c a concatenation packs only its own bytes of the shared buffer")
 	return "Decided with go/constant and abstract evaluation: the tag constants PackFalse<PackTrue<PackMinus<PackPlus<PackString<PackDate<PackObject<=PackRecord fit a byte; types.Boolean..Object equal ordBool..ordObject; " +
 		"PackedOrd evaluated for every tag is defined, non-decreasing in the tag, and ordStr for the empty buffer; Unpack evaluated for every tag reaches a return (no panic), and every concrete type its cases can yield " +
 		"(following UnpackDate/UnpackNumber/… and package variables) has Order equal to PackedOrd of the case's tag; for every type of package core with a constant Type() and a Pack method (declared or promoted) the first byte written " +
